@@ -6,3 +6,4 @@ import CssVerif.Props.C16
 #print axioms CssVerif.C16.exSel_wf
 #print axioms CssVerif.C16.exSel_spec
 #print axioms CssVerif.C16.exSel_run
+#print axioms CssVerif.C16.exSel_text
